@@ -107,3 +107,26 @@ Theorem C12_backup_gpt_overwrites_refuted :
        Hybrid.hy_update_efi y0 100 2880 10485760 = Some y /\ Hybrid.ih_padlen (Hybrid.hy_ih y) 10485760 = 0 /\
        Hybrid.secondary_write_offset (Hybrid.hy_sec y) = 10485760 - 16896).
 Proof. exact HybridGptProofs.backup_gpt_overlap_refuted. Qed.
+
+(* the backup GPT describes the same disk and partitions as the primary (GUIDs, partition entries, array CRC); only the
+   header LBAs are swapped and the array is placed before the backup header.  (False of the code before fix "the backup
+   GPT carries the GUIDs of the primary GPT": the two were created with independent random GUIDs.) *)
+Section HybridMirror.
+Import Prim Codec Hybrid HybridProofs HybridGptProofs.
+Theorem C12_gpt_backup_mirrors_primary : forall mac pe id po gs gh pt pg sg y0 ext cnt iso y,
+  hy_new true mac pe id po gs gh pt pg sg = Some y0 -> hy_update_efi y0 ext cnt iso = Some y ->
+  let P := g_header (hy_pri y) in let S := g_header (hy_sec y) in
+  g_parts (hy_sec y) = g_parts (hy_pri y) /\
+  (* header: only current/backup LBA (swapped) and partition_entries_lba differ *)
+  gh_current_lba S = gh_backup_lba P /\ gh_backup_lba S = gh_current_lba P /\ gh_current_lba P = 1 /\
+  gh_pe_lba S = gh_backup_lba P - 32 /\ gh_pe_lba P = (if mac then 16 else 2) /\
+  gh_first_usable S = gh_first_usable P /\ gh_last_usable S = gh_last_usable P /\
+  gh_disk_guid S = gh_disk_guid P /\ gh_num_parts S = gh_num_parts P /\ gh_size_pe S = gh_size_pe P /\
+  gpt_mirror (hy_pri y) (hy_sec y) /\
+  (* recorded bytes *)
+  gpt_part_data (hy_sec y) = gpt_part_data (hy_pri y) /\
+  forall bp bs, gpt_record (hy_pri y) = Some bp -> gpt_record (hy_sec y) = Some bs ->
+    slice 88 92 (gpt_hdr_of (hy_sec y) bs) = slice 88 92 (gpt_hdr_of (hy_pri y) bp) /\
+    let n := (length bs - 512)%nat in n = (128 * 128)%nat /\ firstn n bs = skipn (length bp - n) bp.
+Proof. exact HybridGptProofs.gpt_backup_mirrors_primary. Qed.
+End HybridMirror.
